@@ -33,6 +33,11 @@ type LOp struct {
 type ListCase struct {
 	Init [3]string `json:"init"` // JSON array literals for the three holders
 	Ops  []LOp     `json:"ops"`
+	// Passes: the rule (the whole history) is executed again over a fresh copy
+	// of the document: 2 = root selectors $ and $, 3 = the document twice in the
+	// input stream. Every pass must give what the first gave: the arrays of one
+	// pass are not the arrays of the next.
+	Passes int `json:"passes,omitempty"`
 }
 
 func (c *ListCase) doc() string { return `{"items": ` + c.Init[2] + `, "other": 1}` }
@@ -519,6 +524,19 @@ func runListCase(c *ListCase, keep bool) Outcome {
 	}
 	sb.WriteString("print \"DONE\"\n}\n")
 	prog := sb.String()
+	var selectors []string
+	input := c.doc()
+	firstPass := len(want)
+	if c.Passes >= 2 && fatalAt < 0 {
+		one := want
+		want = append(append(append([]exp{}, one...), exp{tag: "DONE", op: len(c.Ops) - 1}), one...)
+		if c.Passes == 2 {
+			selectors = []string{"$", "$"}
+		} else {
+			input = input + "\n" + input
+		}
+		o.Probes["second_pass_over_fresh_document"]++
+	}
 	var out bytes.Buffer
 	kind, msg := "", ""
 	func() {
@@ -527,7 +545,7 @@ func runListCase(c *ListCase, keep bool) Outcome {
 				kind, msg = "panic", fmt.Sprint(r)
 			}
 		}()
-		_, err := lang.EvalProgram(prog, []lang.InputFile{{Name: "doc.json", Reader: strings.NewReader(c.doc())}}, nil, &out, false)
+		_, err := lang.EvalProgram(prog, []lang.InputFile{{Name: "doc.json", Reader: strings.NewReader(input)}}, selectors, &out, false)
 		kind, msg = classifyErr(err)
 	}()
 	log.add('L', 0, "RUN ops=%d kind=%s msg=%q", len(c.Ops), kind, msg)
@@ -558,7 +576,7 @@ func runListCase(c *ListCase, keep bool) Outcome {
 	li := 0
 	for wi := 0; wi < len(want); wi++ {
 		w := want[wi]
-		if li >= len(lines) || lines[li] == "DONE" {
+		if li >= len(lines) || (lines[li] == "DONE" && w.tag != "DONE") {
 			o.Class = "run-stopped"
 			o.Msg = fmt.Sprintf("the run ended (%s: %s) before operation #%d `%s` completed", kind, msg, w.op, opText(w.op))
 			return finish()
@@ -614,10 +632,14 @@ func runListCase(c *ListCase, keep bool) Outcome {
 					o.Class = "array-contents-mismatch"
 					o.Msg = fmt.Sprintf("after operation #%d `%s`: %s is %s, the ideal list says %s", w.op, opText(w.op), listHolders[k], vals[k], w.vals[k])
 				}
+				if wi > firstPass {
+					o.Msg += " (second pass of the same rule over a fresh copy of the document)"
+				}
 				return finish()
 			}
 		}
 	}
+	_ = firstPass
 	if fatalAt >= 0 && twinAlt != "" {
 		// second run: the same history with the == walk in place of contains
 		o.Probes["contains_mixed"]++
@@ -825,6 +847,9 @@ func genListCase(t *Tape, maxOps int, bulk bool) *ListCase {
 		}
 		m.step(&op)
 		c.Ops = append(c.Ops, op)
+	}
+	if t.Chance(1, 4) {
+		c.Passes = 2 + t.Draw(2)
 	}
 	switch t.Weighted(8, 2, 3) {
 	case 1:
